@@ -238,6 +238,12 @@ pub struct Stats {
     /// smallest relative distance of a regret-matching decision from its discontinuity
     pub min_margin: f64,
     pub max_rel_err: f64,
+    /// per player and dump infoset: conditioning of the returned (normalised) average strategy =
+    /// (total iteration weight x nodes of the infoset) / (accumulated mass of the infoset), both in
+    /// the library's own scale; infinite when nothing was accumulated (uniform fallback). An
+    /// infoset that its owner almost never reaches has a huge value: rounding noise in the reach
+    /// is amplified by this factor in the returned strategy.
+    pub avg_cond: [Vec<f64>; 2],
 }
 
 pub struct Checker<'a> {
@@ -249,6 +255,9 @@ pub struct Checker<'a> {
     pub stats: Stats,
     /// check visits (needs LOG_VISIT)
     pub with_visits: bool,
+    /// shadow of the cumulative strategy of an infoset that is reached with probability one in
+    /// every accumulation batch (same discounting as the library applies), per player
+    unit_mass: [f64; 2],
 }
 
 type Fail = (String, String);
@@ -440,6 +449,7 @@ impl<'a> Checker<'a> {
             scale: flat.max_abs_payoff().max(1e-300),
             stats: Stats { min_margin: f64::INFINITY, ..Default::default() },
             with_visits: true,
+            unit_mass: [0.0; 2],
         }
     }
 
@@ -527,6 +537,7 @@ impl<'a> Checker<'a> {
         let mut cur = self.initial();
         // number of completed accumulation batches of the average strategy per player
         let mut batches = [0u64; 2];
+        self.unit_mass = [0.0; 2];
         let mut last_bounds = [f64::INFINITY; 2];
         let per_iter = if self.method == Method::External { 2 } else { 1 };
         let mut stopped = false;
@@ -554,6 +565,21 @@ impl<'a> Checker<'a> {
         }
         if !stopped && iters_run < max_iter {
             return fail("termination:stopped-early", format!("only {} of {} iterations ran although the bounds {:?} never fell below the threshold {}", iters_run, max_iter, last_bounds, max_reg));
+        }
+        for p in 0..2 {
+            self.stats.avg_cond[p] = cur[p]
+                .iter()
+                .enumerate()
+                .map(|(di, st)| {
+                    let mass: f64 = st.cum_strat.iter().sum();
+                    let nodes = self.flat.info_nodes[p][self.al.info[p][di]].len().max(1) as f64;
+                    if mass > 0.0 {
+                        (self.unit_mass[p] * nodes / mass).max(1.0)
+                    } else {
+                        f64::INFINITY
+                    }
+                })
+                .collect();
         }
         // returned values
         for p in 0..2 {
@@ -710,6 +736,7 @@ impl<'a> Checker<'a> {
         for p in 0..2 {
             if accumulating[p] {
                 batches[p] += 1;
+                self.unit_mass[p] += 1.0;
             }
         }
         // ---- advance ----
@@ -742,6 +769,9 @@ impl<'a> Checker<'a> {
                 // average strategy discounted by (m/(m+1))^gamma, m = completed accumulation batches
                 let g = self.par.gamma;
                 let factor = if g == 0.0 { 1.0 } else { (m as f64 / (m as f64 + 1.0)).powf(g) };
+                if di == 0 {
+                    self.unit_mass[p] *= factor;
+                }
                 for a in 0..n {
                     let want = q.cum_strat[a] * factor;
                     if !close(r.cum_strat[a], want, 1e-9 * q.cum_strat[a].abs()) {
